@@ -50,7 +50,21 @@ func makeNamedType(name string, underlying types.Type) *types.Named {
 }
 
 func makeReflectValue(t types.Type, v value) value {
-	return structure{rtype{t}, v}
+	return structure{rtype{t}, v, (*value)(nil)}
+}
+
+// makeReflectValueAddr makes an addressable reflect.Value for the cell at addr (symgo extension).
+func makeReflectValueAddr(t types.Type, addr *value) value {
+	return structure{rtype{t}, nil, addr}
+}
+
+func rVAddr(v value) *value {
+	st := v.(structure)
+	if len(st) < 3 {
+		return nil
+	}
+	a, _ := st[2].(*value)
+	return a
 }
 
 // Given a reflect.Value, returns its rtype.
@@ -60,6 +74,9 @@ func rV2T(v value) rtype {
 
 // Given a reflect.Value, returns the underlying interpreter value.
 func rV2V(v value) value {
+	if a := rVAddr(v); a != nil {
+		return *a
+	}
 	return v.(structure)[1]
 }
 
@@ -247,6 +264,12 @@ func ext۰reflect۰Value۰Kind(fr *frame, args []value) value {
 
 func ext۰reflect۰Value۰String(fr *frame, args []value) value {
 	// Signature: func (reflect.Value) string
+	switch v := rV2V(args[0]).(type) {
+	case string:
+		return v
+	case sstring:
+		return v
+	}
 	return toString(rV2V(args[0]))
 }
 
@@ -358,13 +381,17 @@ func ext۰reflect۰Value۰Pointer(fr *frame, args []value) value {
 
 func ext۰reflect۰Value۰Index(fr *frame, args []value) value {
 	// Signature: func (v reflect.Value, i int) Value
-	i := args[1].(int)
+	i := int(asInt64(args[1]))
 	t := rV2T(args[0]).t.Underlying()
 	switch v := rV2V(args[0]).(type) {
 	case array:
 		return makeReflectValue(t.(*types.Array).Elem(), v[i])
 	case []value:
-		return makeReflectValue(t.(*types.Slice).Elem(), v[i])
+		return makeReflectValueAddr(t.(*types.Slice).Elem(), &v[i])
+	case string:
+		return makeReflectValue(types.Typ[types.Uint8], v[i])
+	case sstring:
+		return makeReflectValue(types.Typ[types.Uint8], v[i])
 	default:
 		panic(fmt.Sprintf("reflect.(Value).Index(%T)", v))
 	}
@@ -393,11 +420,10 @@ func ext۰reflect۰Value۰Elem(fr *frame, args []value) value {
 	case iface:
 		return makeReflectValue(x.t, x.v)
 	case *value:
-		var v value
 		if x != nil {
-			v = *x
+			return makeReflectValueAddr(rV2T(args[0]).t.Underlying().(*types.Pointer).Elem(), x)
 		}
-		return makeReflectValue(rV2T(args[0]).t.Underlying().(*types.Pointer).Elem(), v)
+		return makeReflectValue(rV2T(args[0]).t.Underlying().(*types.Pointer).Elem(), nil)
 	default:
 		panic(fmt.Sprintf("reflect.(Value).Elem(%T)", x))
 	}
@@ -417,6 +443,8 @@ func ext۰reflect۰Value۰Float(fr *frame, args []value) value {
 		return float64(v)
 	case float64:
 		return float64(v)
+	case *sym:
+		return symConv(types.Typ[types.Float64], v)
 	}
 	panic("reflect.Value.Float")
 }
@@ -439,6 +467,8 @@ func ext۰reflect۰Value۰Int(fr *frame, args []value) value {
 		return int64(x)
 	case int64:
 		return x
+	case *sym:
+		return symConv(types.Typ[types.Int64], x)
 	default:
 		panic(fmt.Sprintf("reflect.(Value).Int(%T)", x))
 	}
@@ -474,7 +504,48 @@ func ext۰reflect۰Value۰IsValid(fr *frame, args []value) value {
 }
 
 func ext۰reflect۰Value۰Set(fr *frame, args []value) value {
-	// TODO(adonovan): implement.
+	a := rVAddr(args[0])
+	if a == nil {
+		panic(targetPanic{iface{types.Typ[types.String], "reflect: reflect.Value.Set using unaddressable value"}})
+	}
+	store(rV2T(args[0]).t, a, rV2V(args[1]))
+	return nil
+}
+
+func ext۰reflect۰Value۰SetLen(fr *frame, args []value) value {
+	a := rVAddr(args[0])
+	if a == nil {
+		panic(targetPanic{iface{types.Typ[types.String], "reflect: reflect.Value.SetLen using unaddressable value"}})
+	}
+	n := int(asInt64(args[1]))
+	sl := (*a).([]value)
+	logStore(a)
+	*a = sl[:n]
+	return nil
+}
+
+func ext۰reflect۰Append(fr *frame, args []value) value {
+	// func Append(s Value, x ...Value) Value
+	t := rV2T(args[0]).t
+	sl, _ := rV2V(args[0]).([]value)
+	var add []value
+	for _, xv := range args[1].([]value) {
+		add = append(add, rV2V(xv))
+	}
+	return makeReflectValue(t, appendLogged(sl, add))
+}
+
+func ext۰reflect۰Value۰Addr(fr *frame, args []value) value {
+	a := rVAddr(args[0])
+	if a == nil {
+		panic(targetPanic{iface{types.Typ[types.String], "reflect.Value.Addr of unaddressable value"}})
+	}
+	return makeReflectValue(types.NewPointer(rV2T(args[0]).t), a)
+}
+
+func ext۰reflect۰Value۰SetMapIndex(fr *frame, args []value) value {
+	m := rV2V(args[0]).(*hashmap)
+	m.insert(rV2V(args[1]), rV2V(args[2]))
 	return nil
 }
 
@@ -534,6 +605,7 @@ func initReflect(i *interpreter) {
 		rV.SetUnderlying(types.NewStruct([]*types.Var{
 			types.NewField(token.NoPos, r.Pkg, "t", tEface, false), // a lie
 			types.NewField(token.NoPos, r.Pkg, "v", tEface, false),
+			types.NewField(token.NoPos, r.Pkg, "a", tEface, false),
 		}, nil))
 	}
 
